@@ -40,8 +40,8 @@ M = [
   "            if cur_stack <= 2 {\n                Err(Error::new(String::from(\"\"), \"\"))", "            if cur_stack == 0 {\n                Err(Error::new(String::from(\"\"), \"\"))"),
  ("C10__jump_budget_removed", "src/core/optimize.rs",
   "        if exec_count >= 100 {\n            return Ok((state_clone, false));\n        }", "        if exec_count >= usize::MAX {\n            return Ok((state_clone, false));\n        }"),
- ("C02__renumber_size_one_short", "src/core/optimize.rs",
-  "        size = max + 1;", "        size = max;"),
+ ("C02__renumber_live_stacks_share_slot", "src/core/optimize.rs",
+  "                *temp = max;\n                max += 1;", "                *temp = max;"),
  ("C02__captured_output_reversed", "src/core/optimize.rs",
   "            .extend(out_str.chars().map(|x| Num::from_num(x as isize)));", "            .extend(out_str.chars().rev().map(|x| Num::from_num(x as isize)));"),
  ("C02__captured_stderr_to_stdout", "src/app/run.rs",
